@@ -11,14 +11,19 @@ struct Job {
     axis: Axis,
     explicit: bool,
     f32: bool,
+    /// extreme magnitudes: the implementation sees axis and queries x cx and data x cd (powers of
+    /// two); the reference is computed on the unscaled problem and scales exactly
+    cx: f64,
+    cd: f64,
 }
 
 impl Job {
     fn key(&self) -> String {
         format!(
-            "{}:{}:{}",
+            "{}:{}{}:{}",
             if self.f32 { "f32" } else { "f64" },
             self.axis.name,
+            if self.cx != 1.0 || self.cd != 1.0 { format!("(axis*2^{},data*2^{})", self.cx.log2(), self.cd.log2()) } else { String::new() },
             if self.explicit { "x" } else { "index" }
         )
     }
@@ -177,6 +182,16 @@ fn run<T: Fl>(job: &Job, out: &mut JobOut) {
             out.nontrivial += 1;
         }
     }
+    // what the implementation sees (identical unless this is an extreme-magnitude job)
+    let (cxt, cdt) = (T::from_f64_lossy(job.cx), T::from_f64_lossy(job.cd));
+    let xt_unscaled = xt.clone();
+    let _ = &xt_unscaled;
+    let xt: Vec<T> = xt.iter().map(|&v| v * cxt).collect();
+    let qs_impl: Vec<T> = qs.iter().map(|&v| v * cxt).collect();
+    let data = data.mapv(|v| v * cdt);
+    if xt.iter().chain(qs_impl.iter()).chain(data.iter()).any(|v| !v.is_finite()) {
+        return;
+    }
     for (layout, data) in layouts2(&data) {
         let key = format!("{key}:{layout}");
         nimc::subj::set_axis_reversed_in_memory(layout == "rev");
@@ -207,7 +222,7 @@ fn run<T: Fl>(job: &Job, out: &mut JobOut) {
         };
         out.states += 1;
         for entry in ENTRIES_1D {
-            let res = match eval_entry(&ip, &qs, entry) {
+            let res = match eval_entry(&ip, &qs_impl, entry) {
                 Ok(r) => r,
                 Err(f) => {
                     out.outcome(format!("{entry}:{}", f.class()));
@@ -225,7 +240,7 @@ fn run<T: Fl>(job: &Job, out: &mut JobOut) {
             for (qi, &q) in qs.iter().enumerate() {
                 for (j, l) in lanes.iter().enumerate() {
                     let r = &refs[qi][j];
-                    let got = res[[qi, j]].to_f64();
+                    let got = (res[[qi, j]] / cdt).to_f64();
                     let tol = 8.0 * T::EPS * r.m;
                     let err = err_dd(got, r.exact);
                     out.evals += 1;
@@ -271,10 +286,28 @@ fn body(ctx: &Ctx) -> (Summary, Meta) {
             if f32 && a.mesh_ratio > 8.0 && a.name.starts_with('W') {
                 continue;
             }
+            // extreme magnitudes for short word axes: |y| * dx, |y| / dx, dx^2 ... leave the float
+            // range for formulas other than the two-point form
+            if a.name.starts_with("w[") && a.n() <= 4 && (a.name.ends_with("@0") || a.name.ends_with("@-3")) {
+                let e = if f32 { 60 } else { 500 };
+                let (big, small) = (2.0f64.powi(e), 2.0f64.powi(-e));
+                // (axis and data scaled in opposite directions are left out: there the slope dy/dx itself
+                // leaves the float range, which no two-point formula with a slope can avoid)
+                let mut pairs = vec![(big, big), (small, small), (big, 1.0), (1.0, big), (small, 1.0), (1.0, small)];
+                if !f32 {
+                    pairs.push((2.0f64.powi(100), 2.0f64.powi(900)));
+                    pairs.push((2.0f64.powi(-100), 2.0f64.powi(-900)));
+                }
+                for (cx, cd) in pairs {
+                    jobs.push(Job { axis: a.clone(), explicit: true, f32, cx, cd });
+                }
+            }
             jobs.push(Job {
                 axis: a,
                 explicit: true,
                 f32,
+                cx: 1.0,
+                cd: 1.0,
             });
         }
         for n in [2usize, 3, 4, 5, 6, 7, 8, 40] {
@@ -282,6 +315,8 @@ fn body(ctx: &Ctx) -> (Summary, Meta) {
                 axis: Axis::new(format!("index{n}"), (0..n).map(|i| i as f64).collect()),
                 explicit: false,
                 f32,
+                cx: 1.0,
+                cd: 1.0,
             });
         }
     }
